@@ -364,7 +364,19 @@ def s6(ctx, rid):
                 ctx.bad(rid, key, c.where(), 'the size recorded as synced is computed inside the sync closure (%s), not captured before the sync started' % late[0])
                 continue
             srcs = [o for o in ogs if o.kind == 'call']
-            if not srcs or not all(o.data.name in ('size', 'load') for o in srcs):
+            def is_counter_read(o):
+                if o.data.name == 'load' and o.data.path.startswith('std::sync::atomic::Atomic'):
+                    return True
+                # an accessor of the file that does nothing but load one of its counters (`size()`, `written_size()`)
+                for t in prog.resolve(o.data):
+                    h = prog.body_of(t) if t in prog.fns else None
+                    if h is None or h.is_coroutine:
+                        return False
+                    ret = [x for x in core.origins(h, 0)]
+                    if not ret or not all(x.kind == 'call' and x.data.name == 'load' and x.data.path.startswith('std::sync::atomic::Atomic') for x in ret):
+                        return False
+                return True
+            if not srcs or not all(is_counter_read(o) for o in srcs):
                 ctx.bad(rid, key, c.where(), 'unexpected origin of the synced size: %s' % ogs)
                 continue
             ctx.ok(rid, key, c.where(), 'fetch_max after ok sync_all; operand captured before the sync (origins: %s)' % ', '.join(o.data.full for o in srcs))
@@ -820,6 +832,51 @@ def s16(ctx, rid):
         raise core.AnchorLost('pairs of worker notifications in one storage operation: %d' % n)
 
 
+def s17(ctx, rid):
+    """the size recorded as synced counts written bytes only.  `FileInner.size` is advanced when an append RESERVES its range
+    (fetch_add before the positional write); a sync that records a value loaded from that counter marks the ranges of appends
+    still in flight as synced although their bytes reach the file after the fsync returned.  Unless the recording is made
+    conditional on there being no append in flight (a test of another counter), this is finding F16"""
+    prog = ctx.prog
+    n_res = sum(1 for f in prog.fns.values() for c in f.calls if c.bb in f.reachable() and prims.is_reservation(prog, f, c))
+
+    def loads_reservation_counter(g, c, depth=2):
+        if c.path.startswith('std::sync::atomic::Atomic') and c.name == 'load':
+            return prims.receiver_field(g, c) == 'size'
+        if depth > 0:
+            for t in prog.resolve(c):
+                h = prog.body_of(t) if t in prog.fns else None
+                if h is not None and not h.is_coroutine and len(h.calls) <= 6:
+                    ret = [o for o in core.origins(h, 0) if o.kind == 'call']
+                    if ret and all(loads_reservation_counter(h, o.data, depth - 1) for o in ret):
+                        return True
+        return False
+    n = 0
+    for f in prog.fns.values():
+        for c in f.calls:
+            if c.bb not in f.reachable() or not c.path.startswith('std::sync::atomic::Atomic') or c.name != 'fetch_max' or prims.receiver_field(f, c) != 'synced_size':
+                continue
+            n += 1
+            key = 'synced-size-counts-written-bytes|%s' % prog.fns[f.id].root
+            srcs = [o for o in core.origins_ip(prog, f, c.args[1], depth=2) if o.kind == 'call']
+            from_res = [o for o in srcs if loads_reservation_counter(o.fn, o.data)]
+            if not from_res or n_res == 0:
+                ctx.ok(rid, key, c.where(), 'the recorded size does not come from the reservation counter')
+                continue
+            # guarded by a test of another atomic (an in-flight counter)?
+            guarded = False
+            for sw in core.deciding_switches(f, c.bb):
+                for o in core.origins(f, f.blocks[sw]['t']['o']):
+                    if o.kind == 'call' and o.data.path.startswith('std::sync::atomic::Atomic') and prims.receiver_field(f, o.data) not in ('size', 'synced_size', None):
+                        guarded = True
+            if guarded:
+                ctx.ok(rid, key, c.where(), 'recorded only when a test of another counter allows it')
+            else:
+                ctx.bad(rid, key, c.where(), 'the size recorded as synced is loaded from the reservation counter (%s; %d reservation sites advance it before their write): the range of an append that is in flight while the sync runs is marked synced, its bytes are written after the fsync returned, and dirty_bytes() reports 0 for them' % (from_res[0].data.where(), n_res))
+    if n < 1:
+        raise core.AnchorLost('updates of synced_size: %d' % n)
+
+
 RULES = [
     Rule('C12.S1', 'every ok-return of the blob constructor is preceded by the header append and then a completed ok file sync', s1, 2),
     Rule('C12.S2', 'every index dump / index-file construction call is dominated by an ok sync of the blob file (in the function or in every caller)', s2, 2),
@@ -827,6 +884,7 @@ RULES = [
     Rule('C12.S3b', 'the sync of the active blob and its retirement happen under the same live exclusive storage guard', s3b, 1),
     Rule('C12.S4', 'every ok-return of the public fsyncdata on which an active blob exists is preceded by an ok file sync', s4, 1),
     Rule('C12.S5', 'every append to the active blob feeds the dirty-byte check (on every path to the ok-return in the write path); every check controls a sync request on its true edge; the worker handler reaches a sync', s5, 5),
+    Rule('C12.S17', 'the size recorded as synced counts written bytes only, not reservations of appends in flight', s17, 1),
     Rule('C12.S6', 'the synced-size counter is only advanced by fetch_max after an ok sync_all, with a size captured before the sync', s6, 2),
     Rule('C12.S7', 'in index construction the written-flag rewrite follows the ok body append and is followed by an ok sync', s7, 1),
     Rule('C12.S9', 'sync requests to the worker are sent with the waiting send, never dropped when the queue is full (C13.L9 instances)', s9, 1),
